@@ -28,6 +28,8 @@ ParameterEvent::ParameterEvent(Parameter* parameter) : parameter_(parameter) {}
 Parameter::Parameter(const std::string& name, double value, std::shared_ptr<ConstraintInterface> constraint, double precision) :
   name_(name), value_(0), precision_(0), constraint_(constraint), listeners_()
 {
+  if (constraint_ && !constraint_->isCorrect(value))
+    throw ConstraintException("Parameter::Parameter", this, value);
   setValue(value);
   setPrecision(precision);
 #ifdef BPP_CORE_VERIF
